@@ -538,3 +538,62 @@ def chunked(inp):
             continue
         got += r
     return {"fails": got != want, "expected": want.hex()[:80], "observed": got.hex()[:80], "encoded": enc.hex()[:120], "segments": segs}
+
+
+@check
+def array_helpers(inp):
+    """C18: parse_msm / parse_4076_201 against the flat attributes of the same message."""
+    from pyrtcm import RTCMMessage
+    from pyrtcm.rtcmhelpers import parse_msm, parse_4076_201
+    from pyrtcm.rtcmtypes_get_msm import RTCM_PAYLOADS_GET_MSM
+    from spec import pinned
+    p = bytes.fromhex(inp["payload"])
+    try:
+        m = RTCMMessage(payload=p)
+    except BaseException as e:  # noqa
+        return {"fails": False, "observed": f"constructor raised {type(e).__name__}"}
+    ident = m.identity
+    a = {k: v for k, v in m.__dict__.items() if not k.startswith("_")}
+    r1, r2 = outcome(parse_msm, m), outcome(parse_4076_201, m)
+    if r1[0] != "ok" or r2[0] != "ok":
+        return {"fails": True, "expected": "no exception", "observed": (r1[:2] if r1[0] != "ok" else r2[:2])}
+    if ident in RTCM_PAYLOADS_GET_MSM:
+        if r1[1] is None:
+            return {"fails": True, "expected": "(meta, sats, cells)", "observed": None}
+        meta, sats, cells = r1[1]
+        nsat, ncell = a["NSat"], a["NCell"]
+        exp_s = [{k.rsplit("_", 1)[0]: v for k, v in a.items() if k.endswith("_%02d" % i) and k.rsplit("_", 1)[0] in
+                  ("PRN", "DF397", "DF398", "DF399", "DF419", "ExtSatInfo")} for i in range(1, nsat + 1)]
+        exp_c = [{k.rsplit("_", 1)[0]: v for k, v in a.items() if k.endswith("_%02d" % i) and k.rsplit("_", 1)[0] in
+                  ("CELLPRN", "CELLSIG", "DF400", "DF401", "DF402", "DF403", "DF404", "DF405", "DF406", "DF407", "DF408", "DF420")}
+                 for i in range(1, ncell + 1)]
+        ok = (sats == exp_s and cells == exp_c and meta.get("identity") == ident and meta.get("epoch") == a[pinned.MSM_EPOCH[ident[:3]]]
+              and meta.get("station") == a["DF003"] and meta.get("sats") == nsat and meta.get("cells") == ncell)
+        if not ok:
+            return {"fails": True, "expected": {"sats": len(exp_s), "cells": len(exp_c), "first": (exp_s[:1], exp_c[:1])},
+                    "observed": {"sats": len(sats), "cells": len(cells), "first": (sats[:1], cells[:1]), "meta": meta}}
+    elif r1[1] is not None:
+        return {"fails": True, "expected": None, "observed": "parse_msm returned data for a non-MSM message"}
+    if ident == "4076_201":
+        h = r2[1]
+        nl = a["IDF035"] + 1
+        exp = {}
+        for l in range(nl):
+            cs = [a[k] for k in sorted((k for k in a if k.startswith("IDF039_%02d_" % (l + 1))), key=lambda k: int(k.rsplit("_", 1)[1]))]
+            ss = [a[k] for k in sorted((k for k in a if k.startswith("IDF040_%02d_" % (l + 1))), key=lambda k: int(k.rsplit("_", 1)[1]))]
+            exp[l] = {"Layer Height": a["IDF036_%02d" % (l + 1)], "Cosine Coefficients": cs, "Sine Coefficients": ss}
+        if h != exp:
+            return {"fails": True, "expected": {l: (v["Layer Height"], len(v["Cosine Coefficients"]), len(v["Sine Coefficients"])) for l, v in exp.items()},
+                    "observed": None if h is None else {l: (v.get("Layer Height"), len(v.get("Cosine Coefficients", [])), len(v.get("Sine Coefficients", []))) for l, v in h.items()}}
+    elif r2[1] is not None:
+        return {"fails": True, "expected": None, "observed": "parse_4076_201 returned data for another message"}
+    return {"fails": False}
+
+
+@check
+def helper_lists(inp):
+    from contracts import helpers_arrays as ha
+    for n, ok, d in ha.helper_list_lemma():
+        if n == inp["obligation"]:
+            return {"fails": not ok, "expected": "holds", "observed": d}
+    return {"fails": False}
